@@ -56,7 +56,9 @@ func init() {
 			500, 20000,
 			"schemas with After/Require graphs (cyclic and acyclic), 1-3 handler bindings (map bindings), vetoes 0-25%; "+
 				"the handler log (name, binding, Machine.ActiveStates and Machine.Time inside the handler, return value) of "+
-				"every transition is judged; distinct by (input, observation); non-trivial = at least one transition", nil)
+				"every transition is judged; plus a detach stream: 2-4 bindings of which some are detached by a handler "+
+				"while the event is being dispatched; distinct by (input, observation); non-trivial = at least one transition", nil,
+			c05Opts(c))
 	})
 
 	register("C07", func(c *Ctx) error {
